@@ -285,48 +285,120 @@ def parseWireOutcome (s : String) : Option Outcome :=
 def kvOf (ws : List String) (k : String) : Option String :=
   ws.findSome? (fun w => match w.splitOn "=" with | [a, b] => if a == k then some b else none | _ => none)
 
-/-- Index of the first statement-frame answer of attempt `k` in the request's script (the script is one stream
-over all statement frames of the request; the model's answers are per attempt). -/
-def wireCursor (kind : StmtKind) (script : List Outcome) (rounds : Nat) : Nat → Nat
-  | 0 => 0
-  | k + 1 =>
-    let c := wireCursor kind script rounds k
-    c + (stmtAnswers (attempt kind ⟨fun j => script.getD (c + j) .ok, fun _ => .ok, fun _ => true⟩ rounds).frames).length
+/-- Scripted answer to a PREPARE frame of a `wire` case: RESULT/Prepared with the statement's usual id (`p`), with
+another id (`pc`), or a failure. -/
+inductive PrepTok where
+  | same | other | err (e : Err)
+  deriving DecidableEq
 
-/-- One logical request of a `wire` case: number of statement frames put on the wire and ok / err. -/
-def wireRequest (p : Policy) (idem : Bool) (cl0 : Consistency) (n : Nat) (kind : StmtKind) (script : List Outcome) :
-    String :=
+def parsePrepTok (s : String) : Option PrepTok :=
+  if s == "p" then some .same
+  else if s == "pc" then some .other
+  else if s == "pov" then some (.err (.dbError .overloaded))
+  else if s == "pbs" then some (.err (.dbError .isBootstrapping))
+  else if s == "pcl" then some (.err .brokenConnection)
+  else none
+
+/-- a scripted statement-frame answer and whether an UNPREPARED names a known id (`unpx`: it does not) -/
+def parseWireStmt (s : String) : Option (Outcome × Bool) :=
+  if s == "unpx" then some (.fail (.dbError .unprepared), false) else (parseWireOutcome s).map (·, true)
+
+def wireErrKind : Err → String
+  | .dbError (.unavailable _) => "un" | .dbError .isBootstrapping => "bs" | .dbError (.readTimeout _ _ _) => "rt"
+  | .dbError .overloaded => "ov" | .dbError .serverError => "se" | .dbError .truncateError => "tr"
+  | .dbError (.writeTimeout _ _) => "wt" | .dbError .invalid => "inv" | .dbError .unprepared => "unp"
+  | .dbError _ => "db-other"
+  | .brokenConnection => "cl" | .repreparedIdChanged => "idchg" | .repreparedIdMissingInBatch => "idmiss"
+  | .unableToAllocStreamId => "alloc" | _ => "attempt-other"
+
+/-- The answers seen by the attempt that starts at statement cursor `c` / PREPARE cursor `pc` of the request's two
+scripts (each is one stream over the whole request; the model's answers are per attempt).  "The id changed" is
+relative to the id the statement object holds: for a prepared statement that is the usual id; a QUERY with values
+prepares afresh in every attempt (`connection.prepare`, any id is taken), so its re-prepare "changes the id" iff it
+answers differently from that attempt's first PREPARE. -/
+def wireAnswers (kind : StmtKind) (script : List (Outcome × Bool)) (preps : List PrepTok) (c pc : Nat) : Answers :=
+  let tok := fun j => preps.getD (pc + j) .same
+  let plain : PrepTok → PrepAnswer := fun t => match t with | .same => .ok | .other => .idChanged | .err e => .err e
+  let prep : Nat → PrepAnswer := fun j =>
+    if kind == .queryValues then
+      (if j == 0 then (match tok 0 with | .err e => .err e | _ => .ok)
+       else match tok j with
+         | .err e => .err e
+         | t => if t == tok 0 then .ok else .idChanged)
+    else plain (tok j)
+  ⟨fun j => (script.getD (c + j) (.ok, true)).1, prep, fun j => (script.getD (c + j) (.ok, true)).2⟩
+
+def prepareCount (fs : List Frame) : Nat := (fs.filter (fun f => match f with | .prepare _ => true | _ => false)).length
+
+/-- (statement cursor, PREPARE cursor) at the start of attempt `k`. -/
+def wireCursor (kind : StmtKind) (script : List (Outcome × Bool)) (preps : List PrepTok) (rounds : Nat) :
+    Nat → Nat × Nat
+  | 0 => (0, 0)
+  | k + 1 =>
+    let (c, pc) := wireCursor kind script preps rounds k
+    let fr := (attempt kind (wireAnswers kind script preps c pc) rounds).frames
+    (c + (stmtAnswers fr).length, pc + prepareCount fr)
+
+/-- One logical request of a `wire` case: statement frames and PREPARE frames put on the wire, result (error kind).
+`implTok` = the implementation's token for this request: when the plan ran out after a connection had been closed,
+the driver's plan may end with a second, now connection-less entry for that node (the load-balancing policy
+computes the fallback part of the plan lazily, after the liveness change - C05's subject), and the caller then gets
+the pool error instead of the last attempt's error; this one substitution is accepted. -/
+def wireRequest (p : Policy) (idem : Bool) (cl0 : Consistency) (n : Nat) (kind : StmtKind) (countPreps : Bool)
+    (script : List (Outcome × Bool)) (preps : List PrepTok) (implTok : String) : String :=
   let rounds := script.length + 2
   let answers : Nat → Answers := fun k =>
-    let c := wireCursor kind script rounds k
-    ⟨fun j => script.getD (c + j) .ok, fun _ => .ok, fun _ => true⟩
+    let cur := wireCursor kind script preps rounds k
+    wireAnswers kind script preps cur.1 cur.2
   let w := runWire p idem cl0 (List.replicate n Target.always) kind answers rounds
-  let ok := match w.trace.final with | .completed _ => true | .ignored _ => true | _ => false
-  s!"{w.stmtAnswers.length}:{if w.hung then "hung" else if ok then "ok" else "err"}"
+  let res := if w.hung then "hung" else match w.trace.final with
+    | .completed _ => "ok" | .ignored _ => "ok"
+    | .stopped e => "err:" ++ wireErrKind e
+    | .exhausted (some (.attempt e)) => "err:" ++ wireErrKind e
+    | .exhausted (some .pool) => "err:pool"
+    | .exhausted none => "err:emptyplan"
+    | .outOfFuel => "MODEL-OUT-OF-FUEL"
+  let np := (w.frames.map prepareCount).sum
+  let counts := s!"{w.stmtAnswers.length}/{if countPreps then toString np else "-"}"
+  let closed := (List.range w.trace.attempts.length).any (fun k =>
+    outcomeOf kind answers rounds k == .fail .brokenConnection)
+  if w.trace.final.planRanOut && closed && implTok == counts ++ ":err:pool" then implTok
+  else s!"{counts}:{res}"
 
-def runWireCase (ws : List String) : String :=
+def runWireCase (ws : List String) (impl : String) : String :=
   match kvOf ws "n", kvOf ws "pol", kvOf ws "idem", kvOf ws "kind", kvOf ws "cl", kvOf ws "via", kvOf ws "scripts" with
   | some n, some pol, some idem, some kind, some cl, some via, some scripts =>
     let p := if pol == "def" then some Policy.default else if pol == "down" then some Policy.downgrading
       else if pol == "fall" then some Policy.fallthrough else none
     let cl0 := if cl == "q" then some Consistency.localQuorum else if cl == "serial" then some Consistency.serial
       else if cl == "localserial" then some Consistency.localSerial else none
-    -- a plain QUERY is one frame; everything prepared goes through execute_raw_with_consistency; the batches of
-    -- the cases need no PREPARE in prepare_batch (the unprepared statement has no values / the CachingSession
-    -- prepared it before)
+    -- a QUERY without values is one frame; with values it is PREPARE + EXECUTE in every attempt; everything
+    -- prepared goes through execute_raw_with_consistency; `batch`: prepare_batch has nothing to prepare (the
+    -- unprepared statement has no values / the CachingSession prepared it before); `batchv`: one PREPARE per attempt
     let k : Option StmtKind := if kind == "exec" then some .execute
       else if kind == "query" then (if via == "caching" then some .execute else some .query)
-      else if kind == "batch" then some (.batch 0) else none
-    match n.toNat?, p, idem.toNat?, k, cl0, (scripts.splitOn "/").mapM (fun sc => (sc.splitOn ".").mapM parseWireOutcome) with
+      else if kind == "qvals" then some .queryValues
+      else if kind == "batch" then some (.batch 0)
+      else if kind == "batchv" then some (.batch 1) else none
+    let parseScript (sc : String) : Option (List (Outcome × Bool) × List PrepTok) :=
+      match sc.splitOn "~" with
+      | [a] => ((a.splitOn ".").mapM parseWireStmt).map (·, [])
+      | [a, b] => match (a.splitOn ".").mapM parseWireStmt, ((b.splitOn ".").filter (· ≠ "")).mapM parsePrepTok with
+        | some x, some y => some (x, y)
+        | _, _ => none
+      | _ => none
+    let implToks := (words impl).drop 1
+    match n.toNat?, p, idem.toNat?, k, cl0, (scripts.splitOn "/").mapM parseScript with
     | some n, some p, some idem, some k, some cl0, some scs =>
-      "retry " ++ " ".intercalate (scs.map (wireRequest p (idem != 0) cl0 n k))
+      "retry " ++ " ".intercalate (scs.zipIdx.map (fun (sc, i) =>
+        wireRequest p (idem != 0) cl0 n k (via == "session") sc.1 sc.2 (implToks.getD i "")))
     | _, _, _, _, _, _ => "bad-case"
   | _, _, _, _, _, _, _ => "bad-case"
 
 def run (case _impl : String) : String :=
   if case.startsWith "wire retry " then
     -- an environment problem (session could not be built): judged by nobody
-    if _impl.startsWith "e2e-skip" then _impl else runWireCase (words case)
+    if _impl.startsWith "e2e-skip" then _impl else runWireCase (words case) _impl
   else
   match words case with
   | ["tmo", pol, clplant, outs] =>
@@ -367,12 +439,14 @@ def run (case _impl : String) : String :=
     -- speculative execution: several interleaved fibers.  The implementation's line names the fiber of every
     -- attempt (in global `run_request_once` call order); the schedule of loop iterations is recovered from it
     -- and the MODEL (`runSched`) is run on that schedule: its attempts are printed.
-    match parsePolicy pol, clplanm.splitOn "/" with
-    | some (p, idem), [c, pl, ms] =>
+    -- (an optional 4th part is a request timeout: it only cuts the schedule short - the fibers it drops show up
+    --  as attempts cancelled in flight)
+    match parsePolicy pol, (clplanm.splitOn "/").take 3, ((clplanm.splitOn "/").drop 3).all (fun t => t.toNat?.isSome) with
+    | some (p, idem), [c, pl, ms], true =>
       match parseCl c, parsePlan pl, ms.toNat?, (parseOps outs).mapM parseTimedOutcome with
       | some cl0, some plan, some m, some os => specRun p idem cl0 plan m os _impl
       | _, _, _, _ => "bad-case"
-    | _, _ => "bad-case"
+    | _, _, _ => "bad-case"
   | _ => "bad-case"
 
 end ScyllaVerif.Drive.C06
